@@ -569,7 +569,8 @@ func TestSim(t *testing.T) {
 		}
 		if dumpDir != "" {
 			_ = os.MkdirAll(dumpDir, 0o755)
-			lines := append([]string{fmt.Sprintf("sig=%d steps=%d", out.Sig, out.Steps)}, out.Log...)
+			pj, _ := json.Marshal(plan)
+			lines := append([]string{fmt.Sprintf("sig=%d steps=%d", out.Sig, out.Steps), "PLAN " + string(pj)}, out.Log...)
 			for _, v := range out.Violations {
 				lines = append(lines, "VIOL "+v.Class()+" "+v.Detail)
 			}
